@@ -374,7 +374,6 @@ static void *exec_on_small_stack(void *arg)
   if (kind <= K_CAFTER) text_field_case(sig);
   else if (kind == K_DROPNAME) dropname_case(sig);
   else if (kind == K_PATH) path_case(sig);
-  else if (kind == K_OPTION) option_case(sig);
   else if (kind == K_MANY) many_case(sig);
   return NULL;
 }
@@ -387,6 +386,8 @@ static void exec(void)
   snprintf(mc_case_sig, sizeof mc_case_sig, "%s", sig);
   mc_log("%s\n", sig);
   if (kind == K_TOOLARG) toolarg_case(sig);
+  else if (kind == K_OPTION) option_case(sig);   /* default stack: the items are directory names far beyond the OS limits, for which the
+                                                  * claim is only "an error code, no overrun"; the library builds candidate names with alloca */
   else {
     /* the library calls run on a thread with a 512 KiB stack: stack use that grows with the length of a field (alloca, variable
      * length arrays) is a length limit too and shows as a stack overflow here instead of only beyond the 8 MiB default */
